@@ -13,6 +13,12 @@ RULE = ("generated documents x layouts cut at EVERY byte offset 0..len; oracle o
         "of TextTrunc.consistent_tape (one token free, auto-closed container must be an object) on directed documents ending in a parameter "
         "block / header / @[..] / comment without newline / behind a BOM; (d) DOM readers and json() of the truncated parse (c19.view)")
         # <<< a_c19
+# >>> s_c19 (wave 6)
+RULE = (RULE + " wave 6: size ladders 0..65536 (props/C19_sizes.py): item lengths, white space / comment runs, nesting depth 0..300 of each container "
+        "kind, completed fields 0..65536, elements / fields inside the cut container 0..4097, cut positions around 2^16, reader buffer sizes 10..65536, "
+        "binary string lengths 0..65535, ghosts 0..300, typed targets with fixed-arity tuples of arity 0..300, ignored containers of depth 0..300, "
+        "structs of 0..300 fields, maps / sequences of 0..4097 entries; expectations by construction (byte span of every lexeme known to the builder)")
+# <<< s_c19
 TRUSTED = []
 ASSUMPTIONS = ["'consistent with the complete document' is decided by props/C19_text.py: completed top-level items equal, last two items (key/value being cut) free, scalars are prefixes",
                # a_c19 (wave 4)
@@ -35,6 +41,10 @@ def run(ctx):
         m = __import__("props." + name, fromlist=["x"])
         m.run_part(ctx)
     # <<< a_c19
+    # >>> s_c19 (wave 6): size / boundary ladders (lengths, depths, counts, buffer sizes, tuple arities), one dimension at a time
+    from props import C19_sizes
+    C19_sizes.run_part(ctx)
+    # <<< s_c19
 
 
 def search(ctx):
